@@ -15,15 +15,56 @@ def env():
     return e
 
 
-class Lib:
-    """rlibs of generic_array (+ typenum, const_default, zeroize) built from the current /repo working tree"""
+def repo_digest():
+    repo = os.environ.get("VERIF_REPO", "/repo")
+    h = hashlib.sha256()
+    for base, dirs, files in sorted(os.walk(os.path.join(repo, "src"))):
+        dirs.sort()
+        for f in sorted(files):
+            p = os.path.join(base, f)
+            h.update(p.encode())
+            h.update(open(p, "rb").read())
+    p = os.path.join(repo, "Cargo.toml")
+    if os.path.exists(p):
+        h.update(open(p, "rb").read())
+    return h.hexdigest()
 
-    def __init__(self, root):
+
+# other build configurations of the crate: (tag, feature subset or None for the full set, release profile?)
+RELEASE_FULL = ("release_full", None, True)
+
+
+class Lib:
+    """rlibs of generic_array (+ typenum, const_default, zeroize) built from the current /repo working tree.
+    config = None: dev profile (debug assertions on), full feature set. Otherwise (tag, features, release): its own target directory,
+    guarded by the same content digest as the driver uses (cargo's mtime freshness is not trusted)."""
+
+    def __init__(self, root, config=None):
         self.root = root
+        self.config = config
         hdir = os.environ.get("VERIF_HARNESS_DIR") or os.path.join(root, "harness")
         crate = os.path.join(hdir, "rlibdep")
         tdir = os.path.join(hdir, "target", "rlibdep")
-        p = subprocess.run(["cargo", "build", "--message-format=json", "--target-dir", tdir], cwd=crate, env=env(),
+        extra = []
+        self.release = False
+        if config is not None:
+            tag, feats, release = config
+            self.release = release
+            tdir = os.path.join(hdir, "target", "rlibcfg", tag)
+            if feats is not None:
+                extra += ["--no-default-features"] + (["--features", ",".join(feats)] if feats else [])
+            if release:
+                extra += ["--release"]
+            d = repo_digest()
+            stamp = os.path.join(tdir, ".repo_digest")
+            old = open(stamp).read() if os.path.exists(stamp) else None
+            if old != d:
+                if os.path.isdir(tdir):
+                    subprocess.run(["cargo", "clean", "-p", "generic-array", "--target-dir", tdir] + (["--release"] if release else []), cwd=crate, env=env(),
+                                   stdout=subprocess.DEVNULL, stderr=subprocess.DEVNULL)
+                os.makedirs(tdir, exist_ok=True)
+                open(stamp, "w").write(d)
+        p = subprocess.run(["cargo", "build", "--message-format=json", "--target-dir", tdir] + extra, cwd=crate, env=env(),
                            stdout=subprocess.PIPE, stderr=subprocess.PIPE, text=True)
         if p.returncode != 0:
             sys.stderr.write(p.stderr[-3000:])
@@ -40,13 +81,16 @@ class Lib:
             for f in m.get("filenames", []):
                 if f.endswith(".rlib") and name in ("generic_array", "typenum", "const_default", "zeroize", "serde"):
                     self.externs[name] = f
-        self.deps = os.path.join(tdir, "debug", "deps")
+        self.deps = os.path.join(tdir, "release" if self.release else "debug", "deps")
         if "generic_array" not in self.externs:
             raise RuntimeError("generic_array rlib not found in cargo output")
 
     def rustc(self, src, out=None, check_only=False, extra=()):
-        cmd = ["rustc", "--edition", "2021", "-L", "dependency=" + self.deps, "--cap-lints", "allow",
-               "-C", "debug-assertions=on", "-C", "overflow-checks=on", "-C", "opt-level=0", "-C", "debuginfo=0"]
+        cmd = ["rustc", "--edition", "2021", "-L", "dependency=" + self.deps, "--cap-lints", "allow"]
+        if self.release:
+            cmd += ["-C", "debug-assertions=off", "-C", "overflow-checks=off", "-C", "opt-level=1", "-C", "debuginfo=0"]
+        else:
+            cmd += ["-C", "debug-assertions=on", "-C", "overflow-checks=on", "-C", "opt-level=0", "-C", "debuginfo=0"]
         for n, f in self.externs.items():
             cmd += ["--extern", f"{n}={f}"]
         if check_only:
